@@ -4,6 +4,7 @@ import LettreVerif.Model.Builder
 import LettreVerif.Model.Date
 import LettreVerif.Spec.StructuredDec
 import LettreVerif.Model.MailboxEnc
+import LettreVerif.Model.Rfc2231Enc
 namespace LV.Driver.C17
 open LV LV.Driver LV.Mailbox LV.Driver.C16
 
@@ -237,6 +238,11 @@ def typedOp : List String → String
       match HeaderReader.split (blk ++ str "X-End: 1\r\n\r\nbody") with
       | some ([(_, v), _], _) =>
         if !HeaderReader.linesOk false 998 blk then propfail "header-line-malformed" else
+        -- Content-Disposition with a file name: the wire form octet for octet (Model/Rfc2231Enc.lean)
+        let cdModel : Option Bytes := if kind == "cdisp" && a != "inline0" then
+            (ofHex b).map fun fname => str "Content-Disposition: " ++ Rfc2231Enc.cdispValue (str a) fname ++ CRLF
+          else none
+        if cdModel.isSome && cdModel != some blk then s!"MISMATCH content-disposition model={toHexField (cdModel.getD [])}" else
         if kind == "cdisp" && !HeaderReader.longLinesAreSingleTokens blk then propfail "line-over-78-that-could-have-been-folded" else
         if kind == "cdisp" && a != "inline0" then
           match ofHex b with
